@@ -334,8 +334,8 @@ type streamCase struct {
 	Ordinal bool     `json:"ordinal"`
 	Seed    int64    `json:"seed"`
 	Perturb int      `json:"perturb"`
-	After   []string `json:"after"`  // outcomes of the protocol model with the repairs applied (or of the only model)
-	Before  []string `json:"before"` // outcomes of the model of the code as it stands
+	After   []string `json:"after"`  // outcomes of the protocol model (cfg.fixed = TRUE: the code with the repairs)
+	Before  []string `json:"before"` // outcomes of the model of the protocol before the repairs (diagnosis only)
 	Model   bool     `json:"model"`  // After/Before are present
 	QuietMs int      `json:"quiet_ms"`
 	Prompt  int      `json:"prompt"` // > 0: at most this many callbacks may start after a failing one returned
@@ -800,7 +800,9 @@ func runStream(data json.RawMessage) vh.Verdict {
 		if contains(c.After, o) {
 			stats["outcome_in_model"] = 1
 		} else if contains(c.Before, o) {
-			stats["outcome_only_in_model_of_code_as_it_stands"] = 1
+			// an outcome only the model of the protocol BEFORE the repairs (cfg.fixed = FALSE) can produce
+			return vh.Verdict{OK: false, Key: c.Inst + ":pre-repair-outcome:" + shape, Obs: obs, Stats: stats,
+				Msg: fmt.Sprintf("%s: outcome %s is not an outcome of the repaired protocol model, but one of the protocol before the repair (allowed: %v)", desc, o, c.After)}
 		} else {
 			return vh.Verdict{OK: false, Key: fmt.Sprintf("%s:outcome-not-in-model:g=%d:sizes=%v:fail=%v:%s:%s", c.Inst, c.G, c.Sizes, c.Fail, c.Mode, o),
 				Obs: obs, Stats: stats, Msg: fmt.Sprintf("%s: outcome %s is not an outcome of the protocol model (allowed: %v)", desc, o, c.After)}
